@@ -916,10 +916,37 @@ func (x *Exec) store(cfg *Config, ptr Val, v Val, vt types.Type) {
 		if _, isTV := ptr.(TV); isTV {
 			x.nilcheck(cfg, a.Base, "pointer store", token.NoPos)
 		}
+		x.storeRequires(cfg, a)
 		x.storeInFrame(cfg, a.Arr, a.Base)
 		arr := x.heapGet(st, a.Arr, SArr(SInt, x.sortOf(vt)))
 		st.heap[a.Arr] = Store(arr, a.Base, val)
 	}
+}
+
+// storeRequires: "option store-requires <captured variable> <expr>": every
+// write to that captured variable is made in a state satisfying expr (e.g. a
+// cached result is only written while the execution counter is below its
+// limit, so it is frozen afterwards).
+func (x *Exec) storeRequires(cfg *Config, a AddrV) {
+	if x.c == nil || x.c.Options["store-requires"] == "" || a.Kind != aCell || len(cfg.frames) == 0 {
+		return
+	}
+	fs := strings.SplitN(strings.TrimSpace(x.c.Options["store-requires"]), " ", 2)
+	if len(fs) != 2 {
+		return
+	}
+	env := x.entryEnv(cfg)
+	env.frame = cfg.frames[0]
+	env.old = cfg.old
+	cell, ok := env.vars["&"+fs[0]]
+	if !ok {
+		unsupported("option store-requires: %s is not a captured variable", fs[0])
+	}
+	e, err := ParseExpr(fs[1])
+	if err != nil {
+		unsupported("option store-requires: %v", err)
+	}
+	x.oblige(cfg, "store-requires", fs[0]+" written only when "+fs[1], Implies(Eq(a.Base, cell.T), x.specBool(env, e)), nil, token.NoPos)
 }
 
 // noDangling: no pointer field already in the heap refers to an object that
